@@ -1624,8 +1624,10 @@ def oracle_pf(lines, outs):
                     eev.append("b%d" % (2 * units[e[1]]))
             else:
                 eev.append(e)
-        if r.get("ev") != (",".join(eev) or "-"):
-            bad.append((i, "releases %s, reference %s (b<n> = unit blocks, d<t> = user data destructor, f<i> = pool i)" % (
+        # which releases, each exactly once (the ORDER inside one call is the model's business: T2)
+        got = [] if r.get("ev", "-") == "-" else r["ev"].split(",")
+        if sorted(got) != sorted(eev):
+            bad.append((i, "releases %s, reference %s in some order (b<n> = n unit blocks, d<t> = user data destructor on t, f<i> = pool i)" % (
                 r.get("ev"), ",".join(eev) or "-")))
             continue
         units = {k: v[5] for k, v in dump.items()}
@@ -1717,7 +1719,7 @@ def evaluate(run, scripts, impl, asan, model, record=True):
         if cur:
             groups.append((c, cur))
     groups.sort(key=lambda g: -sum(len(s["lines"]) for s in g[1]))
-    env_asan = dict(os.environ, ASAN_OPTIONS="detect_leaks=1:abort_on_error=0:exitcode=23:allocator_may_return_null=1",
+    env_asan = dict(os.environ, ASAN_OPTIONS="detect_leaks=1:abort_on_error=0:exitcode=23:allocator_may_return_null=1:print_legend=0:malloc_context_size=8",
                     UBSAN_OPTIONS="print_stacktrace=0")
     jobs = []
     with ThreadPoolExecutor(max(2, vlib.NCPU // 2)) as ex:
